@@ -22,4 +22,11 @@ for d in kani/*/; do
   n=$(basename "$d")
   (cd "$d" && timeout 1500 cargo kani --target-dir "$PWD/../../.build/kani-target/$n" --only-codegen >/dev/null 2>&1 || true)
 done
+# pre-build the native bounded stand-ins (plain cargo over the real crates); failures are not fatal — checks rebuild on demand
+for d in native/*/; do
+  [ -f "$d/Cargo.toml" ] || continue
+  n=$(basename "$d")
+  cp /repo/Cargo.lock "$d/Cargo.lock" 2>/dev/null || true
+  (cd "$d" && timeout 1500 cargo build --offline --target-dir "$PWD/../../.build/native-target/$n" >/dev/null 2>&1 || true)
+done
 echo setup done
